@@ -27,6 +27,9 @@ def run(ctx):
     ctx.guard(scope, ctx)
     ctx.guard(attr, ctx)
     ctx.guard(xml, ctx)
+    from . import scope as _scope
+    ctx.guard(_scope.containment, ctx, 'C20-CONTAIN')
+    ctx.guard(emission_loops, ctx)
     ctx.assume('completeness of the generated schema against a concrete model is not decided')
     return ('Schema type-check of gen_xsd_schema navigations; agreement of get_type_name / build_type / build_core_type '
             'dispatch tables; succession-order reader rule on R56/R46; scope predicates; attribute mapping patterns; '
@@ -167,6 +170,30 @@ def scope(ctx):
     ok = pm.contains('if one(pe_pe).C_C[8003]():\n    return False', ig) and pm.contains('return is_global(pe_pe)', ig)
     r.check(ok, 'is_global: not inside a component, recursively through the package hierarchy', ig, construct='bridgepoint.ooaofooa:is_global', key='is_global',
             msg='is_global no longer rejects elements inside a C_C / recurses through EP_PKG')
+
+
+def emission_loops(ctx):
+    '''no loop over a selection of model elements ends early: every selected element is declared (or skipped individually)'''
+    repo = ctx.repo
+    r = ctx.rule('C20-LOOPS', 'loops over selected model elements visit every element', floor=4, oracle='property statement (each class / type of the component)')
+    for name in ('build_schema', 'build_component', 'build_class', 'build_enum_type', 'build_struct_type'):
+        fn = repo.func(XSD + ':' + name, required=False)
+        if fn is None:
+            continue
+        for lp in [n for n in ast.walk(fn) if isinstance(n, ast.For)]:
+            early = [x for x in ast.walk(lp) if isinstance(x, (ast.Break, ast.Return)) and not any(
+                isinstance(p_, (ast.FunctionDef, ast.Lambda)) and p_ is not fn for p_ in _parents(x, lp))]
+            r.check(not early, '%s: the loop over `%s` runs to its end' % (name, src(lp.iter)[:60]), lp, construct=XSD + ':' + name,
+                    key='early-exit ' + src(lp.iter)[:40],
+                    msg='%s leaves the loop over `%s` early (%s): the elements after the first one that triggers it are silently missing from '
+                        'the schema' % (name, src(lp.iter)[:60], type(early[0]).__name__.lower() if early else ''))
+
+
+def _parents(x, stop):
+    cur = getattr(x, '_parent', None)
+    while cur is not None and cur is not stop:
+        yield cur
+        cur = getattr(cur, '_parent', None)
 
 
 def attr(ctx):
